@@ -621,7 +621,9 @@ class Gen(object):
         self.inst += 1
         ch = chain + [(loop, self.inst)]
         f = loop.children[0]
-        if f.kind == 'seg':
+        if f.kind == 'seg' and loop.type != 'wrapper':
+            # (a wrapper - HEADER, DETAIL, FOOTER - is no loop of the standard: its first segment is a segment like the others and
+            # may repeat within its own limit)
             if not self.emit(f, ch):
                 return False
             self.children(loop, ch, 1)
